@@ -43,6 +43,17 @@ static void work_pos(long lo, long hi, struct res *r, void *arg) {
                 snprintf(key, sizeof key, "c07:own-index:%s:%u", RL[li].code, idx); snprintf(rep, sizeof rep, "case %d 0 %s", li, ph);
                 res_viol(r, key, rep, "word %u (\"%s\") of %s at position %d does not decode to its own index (status %d)", idx, RL[li].w[idx], RL[li].code, p + 1, st);
             } else { r->validated++; r->cls[1]++; }
+            /* the same through automatic detection (composed form): the word is recognised as its own index there too - the result is this
+             * very seed in this language, or "multiple languages" when every token also exists in another list; never another seed or error */
+            if (form == 0 && st == POLYSEED_OK) {
+                const polyseed_lang *lo_ = NULL; d = NULL; int as = polyseed_decode(ph, 0, &lo_, &d); r->calls++; r->cases++;
+                uint8_t ga[32]; memset(ga, 0, 32); if (as == POLYSEED_OK) { polyseed_store(d, ga); polyseed_free(d); r->calls += 2; }
+                int okk = (as == POLYSEED_OK && !memcmp(ga, exp, 32) && lo_ == polyseed_get_lang(li));
+                if (!okk && as == POLYSEED_ERR_MULT_LANG) { unsigned which = 0; okk = ref_count_langs(ph, CAP, &which) >= 2; }
+                if (!okk) { snprintf(key, sizeof key, "c07:own-index-auto:%s:%u", RL[li].code, idx); snprintf(rep, sizeof rep, "auto %d 0 %s", li, ph);
+                    res_viol(r, key, rep, "word %u (\"%s\") of %s at position %d: automatic detection gives status %d%s", idx, RL[li].w[idx], RL[li].code, p + 1, as, as == 0 ? (lo_ == polyseed_get_lang(li) ? " and a different seed" : " and another language") : ""); }
+                else { r->validated++; r->cls[1]++; }
+            }
         }
     }
     if (r->nsample < 1 && lo < hi) res_sample(r, "lang=%s: golden word #%ld placed at position %ld of a checksum-valid phrase decodes to a seed with exactly that index there", RL[lo / (R_NW * 16)].code, lo % R_NW, (lo / R_NW) % 16 + 1);
@@ -53,6 +64,15 @@ int main(int argc, char **argv) {
     ref_init(VERIF_ROOT); sec_mark_initial(); env_init(); inject(0);
     polyseed_enable_features(7);
     struct res *r = calloc(1, sizeof *r);
+    if (a + 3 < argc && !strcmp(argv[a], "auto")) {   /* auto <lang> <coin> <phrase...> : automatic detection against the explicit result */
+        int li = atoi(argv[a + 1]); unsigned coin = atoi(argv[a + 2]);
+        char ph[2048] = ""; for (int i = a + 3; i < argc; i++) { if (i > a + 3) strcat(ph, " "); strcat(ph, argv[i]); }
+        polyseed_data *d = NULL, *e = NULL; const polyseed_lang *lo_ = NULL; int st = polyseed_decode_explicit(ph, coin, polyseed_get_lang(li), &d), as = polyseed_decode(ph, coin, &lo_, &e);
+        uint8_t g1[32] = {0}, g2[32] = {0}; if (st == 0) polyseed_store(d, g1); if (as == 0) polyseed_store(e, g2);
+        printf("decode_explicit -> %d, decode -> %d (language %d), same seed: %s\n", st, as, as == 0 ? lang_index(lo_) : -1, memcmp(g1, g2, 32) ? "no" : "yes");
+        unsigned which = 0; if (!(as == 0 && st == 0 && !memcmp(g1, g2, 32) && lo_ == polyseed_get_lang(li)) && !(as == POLYSEED_ERR_MULT_LANG && ref_count_langs(ph, CAP, &which) >= 2)) { printf("REPRODUCED\n"); return 1; }
+        return 0;
+    }
     if (a < argc && !strcmp(argv[a], "case")) {   /* case <lang> <coin> <phrase...> : decode and compare with the reference decoder */
         int li = atoi(argv[a + 1]); unsigned coin = atoi(argv[a + 2]);
         char ph[2048] = ""; for (int i = a + 3; i < argc; i++) { if (i > a + 3) strcat(ph, " "); strcat(ph, argv[i]); }
